@@ -110,13 +110,25 @@ def main():
     work = tempfile.mkdtemp(prefix="PTA-HS-", dir=boot.scratch_root())
     os.environ["PTA_SCRATCH"] = work
     try:
-        for t in range(2):
-            spec = trees.random_project(rnd, depth=3, imports_per_file=(1, 4), externals=0.3)
+        for t in range(3):
+            spec = trees.random_project(rnd, depth=3, imports_per_file=(2, 5), externals=0.3)
             root = trees.write_tree(spec)
             for label, kw in (("exclude", {}), ("include", {"exclude_external_libraries": False}), ("include+pattern", {"exclude_external_libraries": False, "external_exclusions": ("os*", "*handlers")}), ("limit", {"level_limit": 1})):
                 ev = get_evaluable_architecture(root, root, **kw)
                 g = ev._graph._graph
                 items[f"scan{t}.{label}"] = [sorted(g.nodes), sorted((a, b, bool(d.get("inherits"))) for a, b, d in g.edges(data=True))]
+                # layer rules on every kind of scanned architecture (the order in which such an architecture lists its
+                # modules is an implementation detail - with externals kept it comes out of a set): layers defined by
+                # packages, imports between their sub modules
+                pk = sorted(n for n in g.nodes if n.count(".") == 1 and n.startswith("proj.") and any(x.startswith(n + ".") for x in g.nodes))
+                if len(pk) >= 2:
+                    arch_s = LayeredArchitecture().layer("first").containing_modules(pk[:1]).layer("second").containing_modules(pk[1:2])
+                    if len(pk) >= 3:
+                        arch_s = arch_s.layer("rest").containing_modules(pk[2:])
+                    for v in ("should", "should_only", "should_not"):
+                        items[f"scan{t}.{label}.layer.{v}"] = out(getattr(LayerRule().based_on(arch_s).layers_that().are_named("first"), v)().access_layers_that().are_named("second"), ev)
+                        items[f"scan{t}.{label}.layer.{v}.be.exc"] = out(getattr(LayerRule().based_on(arch_s).layers_that().are_named("second"), v)().be_accessed_by_layers_except_layers_that().are_named("first"), ev)
+                    items[f"scan{t}.{label}.layer.any"] = out(LayerRule().based_on(arch_s).layers_that().are_named("first").should_not().access_any_layer(), ev)
             ev = get_evaluable_architecture(root, root)
             ns = sorted(n for n in ev.modules if n.count(".") >= 1)
             if len(ns) >= 4:
